@@ -188,6 +188,8 @@ def behaviours_from(run, proto, abstract, label, hub="detached"):
                 init.append({"mb": mb, "subjs": ["%s-%d" % (mb, k) for k in (1, 2, 3)], "size": rng.choice([80, 900, 12000])})
         out.append({"id": "%s-%s-%d" % (proto, label, i), "proto": proto, "store": ["mem", "file"][(i + run.seed) % 2], "hub": hub, "names": BOXES,
                     "retention_off": (i + run.seed) % 5 == 0,
+                    # one schedule in six runs with a long pause between the scanner's mailboxes (3 s): stopping must not wait for it
+                    "retention_sleep_ms": 3000 if (i + run.seed) % 6 == 1 else 0,
                     # a third of the SMTP schedules run against an SMTPS listener (ForceTLS): clients speak TLS, a hangup is a TCP reset
                     "tls": proto == "smtp" and (i + run.seed) % 3 == 1,
                     "init": init, "steps": steps, "_abs": seq,
